@@ -26,8 +26,16 @@ struct in_ltr {
 void h_send_ltr(void) {
     V_INPUT(h_send_ltr, struct in_ltr, in);
     V_ENV(in.cfg);
+#ifdef V_SYM_MTU
+    /* symbolic MTU over the property's whole range [576, 9216]: receive buffer and transmit buffer are objects of exactly MTU
+     * bytes (the long copy goes through the port's ghost-byte model, so no loop depends on the size) */
+    V_ASSUME(!g_cfg.mtu_fail); g_cfg.mtu_fail = 0;
+#define V_LTR_MTU (g_cfg.mtu)
+#else
     V_ASSUME(g_cfg.mtu == V_MTU_FIXED && !g_cfg.mtu_fail);
     g_cfg.mtu = V_MTU_FIXED; g_cfg.mtu_fail = 0;   /* assignments: let symex propagate the constants */
+#define V_LTR_MTU ((size_t)V_MTU_FIXED)
+#endif
     g_ctx = &v_ctx_obj;
     g_k = in.gk;
     V_ASSUME(in.size <= V_DCAP);
@@ -39,7 +47,11 @@ void h_send_ltr(void) {
     is0.mapper_known = 1;
 #endif
     v_build_state(&st, &is0, g_ctx);
+#ifdef V_SYM_MTU
+    uint8_t *f = (uint8_t *)malloc(g_cfg.mtu); V_ASSUME(f != (uint8_t *)0);   /* exactly MTU bytes, arbitrary contents */
+#else
     V_EXACT_OBJECT(f, in.frame, V_MTU_FIXED);
+#endif
     st.mapper_seq = v_be16(f + 30);                /* established by the caller (parseQueryLargeTlv) */
     V_ASSUME(in.allocs0 < 1000 && in.tx0 < 1000);
     g_led.allocs = in.allocs0; g_led.tx_attempts = in.tx0; g_req.tx_base = in.tx0;
@@ -59,8 +71,8 @@ void h_send_ltr(void) {
     sendLargeTlvResponse(&st, g_ctx, f, data, in.size, in.off);
 
     V_POST("C08.one-response: exactly one response (memory permitting), buffer released", C08_LTR_LEDGER(live0, in.allocs0, in.tx0));
-    if (in.size > (size_t)in.off + (V_MTU_FIXED - 34)) { V_CANARY("more"); }
-    if (in.size > in.off && in.size <= (size_t)in.off + (V_MTU_FIXED - 34)) { V_CANARY("final"); }
+    if (in.size > (size_t)in.off + (V_LTR_MTU - 34)) { V_CANARY("more"); }
+    if (in.size > in.off && in.size <= (size_t)in.off + (V_LTR_MTU - 34)) { V_CANARY("final"); }
     if (in.size <= in.off) { V_CANARY("beyond"); }
     V_CANARY("end");
 }
